@@ -6,6 +6,7 @@ All statements are over an arbitrary linearly ordered field `α` (ℚ, ℝ, …)
 vertices, any shape, any orientation, repeated vertices allowed) and every point subject to the stated hypotheses.
 -/
 import HydroVerif.Lemmas.C15
+import HydroVerif.Lemmas.C15Convex
 
 set_option linter.unusedSectionVars false
 
@@ -166,6 +167,29 @@ theorem inside_scale {atol c : α} {poly : List (α × α)} {pt : α × α} (h0 
     pointInside atol (poly.map (scale c)) (scale c pt) = pointInside atol poly pt := by
   rw [inside_eq_evenOdd_of_far h0 hfar', inside_eq_evenOdd_of_far h0 hfar, evenOdd_scale hc]
 
+/-! ### strictly convex polygons: the answer is the half-plane test -/
+
+/-- for a strictly convex counter-clockwise polygon with at least 3 distinct vertices and a point not on its
+boundary, the even-odd rule accepts the point exactly when it is strictly on the inner (left) side of every edge -/
+theorem convex_evenOdd_iff {poly : List (α × α)} {pt : α × α} (hn : 3 ≤ poly.length) (hnd : poly.Nodup)
+    (hcv : StrictConvexCCW poly) (hfar : Far 0 poly pt) : evenOdd poly pt = true ↔ LeftOfAll poly pt :=
+  ⟨leftOfAll_of_evenOdd hnd hcv hfar, evenOdd_of_leftOfAll hn hnd hcv⟩
+
+/-- the same for the code's answer, for a point farther than the tolerance from the boundary -/
+theorem convex_inside_iff {atol : α} {poly : List (α × α)} {pt : α × α} (h0 : 0 ≤ atol) (hn : 3 ≤ poly.length)
+    (hnd : poly.Nodup) (hcv : StrictConvexCCW poly) (hfar : Far atol poly pt) :
+    pointInside atol poly pt = true ↔ LeftOfAll poly pt := by
+  rw [inside_eq_evenOdd_of_far h0 hfar]
+  exact convex_evenOdd_iff hn hnd hcv (far_mono h0 hfar)
+
+/-- clockwise orientation: strictly on the right side of every edge -/
+theorem convex_cw_inside_iff {atol : α} {poly : List (α × α)} {pt : α × α} (h0 : 0 ≤ atol) (hn : 3 ≤ poly.length)
+    (hnd : poly.Nodup) (hcv : StrictConvexCCW poly.reverse) (hfar : Far atol poly pt) :
+    pointInside atol poly pt = true ↔ ∀ e ∈ edges poly, cross e.1 e.2 pt < 0 := by
+  rw [← inside_reverse h0 hfar,
+    convex_inside_iff h0 (by rw [List.length_reverse]; exact hn) (List.nodup_reverse.mpr hnd) hcv (far_reverse hfar)]
+  exact leftOfAll_reverse
+
 /-! ### the vector interface and `cells_inside_polygon` -/
 
 /-- `points_inside_polygon` answers each point independently with the per-point model; a caller-supplied answer
@@ -254,5 +278,10 @@ example : OffEdges [(0, 0), (4, 0), (0, 4)] ((1, 1) : ℚ × ℚ) := by
   intro e he
   simp only [edges, edgesFrom, List.cons_append, List.nil_append, List.mem_cons, List.not_mem_nil, or_false] at he
   rcases he with rfl | rfl | rfl <;> (intro _; unfold xint; norm_num)
+
+example : StrictConvexCCW ([(0, 0), (4, 0), (0, 4)] : List (ℚ × ℚ)) := by
+  unfold StrictConvexCCW; decide +kernel
+example : LeftOfAll [(0, 0), (4, 0), (0, 4)] ((1, 1) : ℚ × ℚ) := by
+  unfold LeftOfAll; decide +kernel
 
 end HydroVerif.C15
